@@ -1,6 +1,7 @@
 import Verif.Proofs.C09JsSep
 import Verif.Proofs.C09JsTree
 import Verif.Proofs.JsPrintGwf
+import Verif.Proofs.C09JsStmt
 /-!
 # C09 (JS) — property-level theorems of the JavaScript slice
 
@@ -10,7 +11,7 @@ tokens: read back with the independent lexer `Spec.C09JsLex.lex`, its output giv
 -/
 namespace Verif.Proofs.C09Js
 open Verif.Spec.C09JsLex Verif.Spec.JsSyntax Verif.Spec.JsGrammar Verif.Model.JsAst Verif.Model.JsPrint
-open Verif.Proofs.C09JsSep Verif.Proofs.C09JsTree
+open Verif.Proofs.C09JsSep Verif.Proofs.C09JsTree Verif.Proofs.C09JsStmt Verif.Model.JsStmt
 
 /-- **Token separation of the writer (Theorem A).**  For every token list `ts` of the C01 token alphabet
     (identifiers, the keywords of the fragment, decimal numbers as the printer spells them — `5`, `1e3`, and `5.`
@@ -92,5 +93,37 @@ example : String.ofList (emit (yield (.comma [.bin .lt (.bin .div (.bin .mul (.g
       (.var "c")) (.group (.bin .sub (.var "d") (.unary .neg (.var "e"))))) (.unary .not (.unary .predec (.var "f"))),
       .bin .inOp (.dot (.lit (.num 5)) "g") (.var "h")])))
     = "(a+b)*c/(d- -e)<! --f,5..g in h" := by decide
+
+
+/-! ## the statement printer -/
+
+/-- full statement for the statement printer model of C01 (`jsMinify`: `optimizeStmtList`, `minifyStmt` for
+    expression statements, `if`/`else`, `return`, `throw`, blocks, function declarations, with all expression
+    rewrites): whenever the model produces bytes, the independent lexer reads them back as exactly the tokens the
+    printer wrote.  Not proved in this generality: C01 has no theorem that the trees produced by the expression
+    rewrites (`optimizeCondExpr`, `optimizeUnaryExpr`, …) are derivation trees of the grammar. -/
+def js_print_relex_full : Prop :=
+  ∀ (o : Opts) (prog : List S) (ts : List Tok), jsTokens o prog = some ts → (∀ t ∈ ts, tokOk t = true) →
+    lex (emit ts) = some (lexToks true ts)
+
+/-- **The statement printer never glues tokens (partial: explicit decidable guard).**  `jsTokensG` is the statement
+    printer model with the guard "every expression tree that is printed is a derivation tree of the expression
+    grammar with plain names and strings, function and parameter names are plain identifiers" (`gwfA t && treeOk t`,
+    evaluated by the driver on every swept program: it held on all of them).  Where the guard holds, the guarded
+    printer is the model (`jsMinify o prog = some (emit ts)`) and the bytes are read back by the independent lexer as
+    exactly the tokens written — for every program of the fragment, every option set, by induction over the fuel of
+    `printS`/`printL` with the tracker state "statement position" as invariant.  Printer paths covered: `writeSemicolon`
+    / `requireSemicolon` placement, `if(…)…;else …`, `{…}` incl. the braces added against the dangling else, `return` /
+    `throw` followed by an expression, function declarations with parameter lists. -/
+theorem js_print_relex_partial (o : Opts) (prog : List S) (ts : List Tok) (h : jsTokensG o prog = some ts) :
+    jsMinify o prog = some (emit ts) ∧ lex (emit ts) = some (lexToks true ts) := by
+  obtain ⟨h1, h2, h3, h4⟩ := jsTokensG_safe o prog ts h
+  refine ⟨?_, js_token_sep ts h1 h2 h3 h4⟩
+  simp [jsMinify, jsTokensG_agrees o prog ts h]
+
+/-- `function t(p,q){if(p)return q;else{p--;throw p/q}}x=t(a,b)` satisfies the guard -/
+example : (jsTokensG {} [.fn "t" ["p", "q"] [.ifS (.var "p") (.ret (some (.var "q")))
+      (.block [.expr (.unary .postdec (.var "p")), .throw (.bin .div (.var "p") (.var "q"))])],
+      .expr (.bin .assign (.var "x") (.call (.var "t") [.var "a", .var "b"]))]).isSome = true := by decide
 
 end Verif.Proofs.C09Js
